@@ -102,6 +102,9 @@ pub fn replay(case: &Value) -> Option<(String, String)> {
     let shape = case["shape"].as_u64()? as usize;
     let n_tags = case["n_tags"].as_u64()? as usize;
     let labels: Vec<u8> = case["labels"].as_str()?.chars().map(|c| "NWU".find(c).unwrap() as u8).collect();
+    if case["short"] == true {
+        return check_case(shape, &labels, n_tags).map(|(k, w)| (format!("{k} labels=len{}hash{:x} shape={shape} n_tags={n_tags}", labels.len(), gen::mix(labels.iter().fold(7u64, |a, &b| gen::mix(a ^ b as u64)))), w.chars().take(400).collect()));
+    }
     check_case(shape, &labels, n_tags).map(|(k, w)| (format!("{k} labels={} shape={shape} n_tags={n_tags}", lab(&labels)), w))
 }
 
@@ -136,8 +139,15 @@ pub fn run(tier: Tier) -> ! {
         }
     }
     // long sentences (40 and 120 characters): periodic label patterns of every period-3 and period-4 word
-    for n in [40usize, 120] {
+    // ... and lengths around the sizes at which an index type, a chunk or a buffer could change (u8, 1 KiB; thorough
+    // also 4 KiB and u16), period 3 only above 300
+    let long_ns: Vec<usize> = tier.pick(vec![40usize, 120, 255, 256, 257, 1025], vec![40, 120, 255, 256, 257, 1025, 4097, 65535, 65536, 65537]);
+    chk.set("long_sentence_lengths", json!(long_ns));
+    for n in long_ns {
         for period in [3usize, 4] {
+            if n > 300 && period == 4 {
+                continue;
+            }
             for pat in gen::vectors(3, period) {
                 let labels: Vec<u8> = (0..n - 1).map(|i| pat[i % period]).collect();
                 for shape in 0..6 {
@@ -151,6 +161,43 @@ pub fn run(tier: Tier) -> ! {
                 }
             }
         }
+    }
+    // scrambled (fixed pseudo-random) label vectors at the threshold lengths: runs of skipped segments and of
+    // tokens of every small length in every order, which no periodic vector gives; plus long runs of one
+    // label between two tokens (run lengths around 64, 128, 256)
+    {
+        let mut vs: Vec<Vec<u8>> = vec![];
+        for &n in &tier.pick(vec![257usize, 1025], vec![257, 1025, 4097, 65537]) {
+            for salt in 0..3u64 {
+                vs.push((0..n - 1).map(|i| (gen::mix(i as u64 ^ salt << 40) % 3) as u8).collect());
+                // biased: mostly unknown / mostly non-boundary with rare word boundaries
+                vs.push((0..n - 1).map(|i| { let h = gen::mix(i as u64 ^ salt << 41) % 16; if h == 0 { 1 } else if h < 9 { 2 } else { 0 } }).collect());
+            }
+        }
+        for run in [62usize, 63, 64, 65, 127, 128, 129, 255, 256, 257] {
+            for fill in [0u8, 2] {
+                for period in [1usize, 2, 3] {
+                    // W N..N|U..U (fill every `period`-th position, else W) W N W
+                    let mut v = vec![0u8, 1];
+                    v.extend((0..run).map(|i| if i % period == 0 { fill } else { 1 }));
+                    v.extend([1, 0, 1, 2, 1, 0]);
+                    vs.push(v);
+                }
+            }
+        }
+        chk.set("scrambled_and_run_label_vectors", json!(vs.len()));
+        vs.par_iter().for_each(|labels| {
+            for shape in 0..6 {
+                for n_tags in [0usize, 2] {
+                    chk.eval(1);
+                    chk.nontrivial(1);
+                    if let Some((k, what)) = check_case(shape, labels, n_tags) {
+                        let what: String = what.chars().take(400).collect();
+                        chk.violation(format!("{k} labels=len{}hash{:x} shape={shape} n_tags={n_tags}", labels.len(), gen::mix(labels.iter().fold(7u64, |a, &b| gen::mix(a ^ b as u64)))), what, json!({"shape": shape, "labels": lab(labels), "n_tags": n_tags, "short": true}));
+                    }
+                }
+            }
+        });
     }
     chk.sample(json!({"labels": "UWUWN", "shape": 0, "n_tags": 0, "expected_tokens": format!("{:?}", ref_tokens(&[2, 1, 2, 1, 0]))}));
     chk.set("max_chars", json!(max_n));
